@@ -30,6 +30,7 @@ def parse_run(out_dir):
     run = os.path.join(out_dir, "demo", "RUN.md")
     demo = [f for f in os.listdir(os.path.join(out_dir, "demo")) if f.endswith(".rs")]
     text = open(run).read() if os.path.exists(run) else open(os.path.join(out_dir, "notes.md")).read()
+    text = re.sub(r"\\\n\s*", " ", text)  # join shell continuation lines
     m = re.search(r"((?:passkey[\w-]*|public-suffix)/(?:tests|examples)/)(\w*demo\w*\.rs)", text)
     dest = (m.group(1), m.group(2)) if m else None
     cmds = [l.strip().strip("`") for l in text.splitlines() if "cargo test" in l or "cargo run" in l]
@@ -89,7 +90,7 @@ def detect(pid, letter, props):
     results = {}
     try:
         for p in props or [pid]:
-            rc, o = sh(f"VDRIVE_ENGINES=native ./check {p} --tier quick", ROOT, timeout=3600)
+            rc, o = sh(f"VDRIVE_ENGINES=native,release,b64feat ./check {p} --tier quick", ROOT, timeout=3600)
             sigs = [l.strip() for l in o.splitlines() if l.strip().startswith("violated:")]
             results[p] = {"exit": rc, "violations": sigs[:6]}
             print(f"[{pid}-{letter}] check {p}: exit={rc}")
